@@ -355,6 +355,88 @@ def check(ctx):
     if not ok:
         ctx.violation('C02.R4', XER, xd, Model.qual(xd), 'indent_xml is no longer applied conditionally to the finished element tree', stmt='xml indent')
 
+    # ---- R6: a container that skips the per-element conversion for "transparent" element types (a shortcut keyed on isinstance) may do so
+    #      only if the conversion of every class that test accepts -- subclasses included -- is the identity
+    ctx.rule('C02.R6', 'a pass-through shortcut keyed on isinstance(<element type>, K) covers only classes whose encode/decode are identities (subclasses included)')
+
+    def is_identity(fn):
+        ps_ = flow.param_names(fn)
+        if ps_ and ps_[0] in ('self', 'cls'):
+            ps_ = ps_[1:]
+        if not ps_:
+            return False
+        body_ = [st_ for st_ in fn.body if not (isinstance(st_, ast.Expr) and isinstance(st_.value, ast.Constant))]
+        return len(body_) == 1 and isinstance(body_[0], ast.Return) and isinstance(body_[0].value, ast.Name) and body_[0].value.id == ps_[0]
+    n6 = 0
+    for rel in (JER, XER):
+        m_ = model.mod(rel)
+        for c in m_.classes.values():
+            # flags: self.<flag> = isinstance(<x>, K) set by a method of the class
+            flags_ = {}
+            for k_ in c.mro():
+                for g_ in k_.methods.values():
+                    for n_ in walk_no_nested(g_):
+                        if isinstance(n_, ast.Assign) and isinstance(n_.value, ast.Call) and isinstance(n_.value.func, ast.Name) and n_.value.func.id == 'isinstance' \
+                                and len(n_.value.args) == 2:
+                            for t_ in n_.targets:
+                                if isinstance(t_, ast.Attribute) and isinstance(t_.value, ast.Name) and t_.value.id == 'self':
+                                    flags_['self.' + t_.attr] = (n_.value.args[1], k_.mod)
+            for mn in ('encode', 'decode'):
+                f_ = c.methods.get(mn)
+                if f_ is None:
+                    continue
+                ps_ = sem.paths(f_)
+                if ps_ is None:
+                    continue
+                allp_ = sem.with_loop_bodies(ps_)
+                converts = any(any(ev[0] in ('call', 'in-loop:call') and len(ev) > 3 and isinstance(ev[3].func, ast.Attribute) and ev[3].func.attr == mn
+                                   and sem.ctext(ev[3].func.value).startswith('self.') for ev in p_.events) for p_ in allp_)
+                if not converts:
+                    continue
+                for p_ in ps_:
+                    if p_.outcome[0] != 'return':
+                        continue
+                    if any(ev[0] in ('call', 'in-loop:call') and len(ev) > 3 and isinstance(ev[3].func, ast.Attribute) and ev[3].func.attr == mn
+                           and sem.ctext(ev[3].func.value).startswith('self.') for ev in p_.events):
+                        continue
+                    # a returning path without the per-element conversion: which type test put us here?
+                    keyed = []
+                    for c_ in p_.conds:
+                        if not c_[1]:
+                            continue
+                        if c_[0] in flags_:
+                            keyed.append(flags_[c_[0]])
+                        elif c_[0].startswith('isinstance(self.') and len(c_) > 4 and isinstance(c_[4], ast.Call) and len(c_[4].args) == 2:
+                            keyed.append((c_[4].args[1], m_))
+                    for kexpr, kmod in keyed:
+                        if isinstance(kexpr, ast.Name):
+                            r_ = kmod.resolve_name(kexpr.id)
+                            if isinstance(r_, tuple) and r_[0] == 'const':
+                                kexpr = r_[1]
+                        names_ = list(kexpr.elts) if isinstance(kexpr, (ast.Tuple, ast.List)) else [kexpr]
+                        classes_ = [kmod.resolve(x_) for x_ in names_ if isinstance(x_, (ast.Name, ast.Attribute))]
+                        classes_ = [x_ for x_ in classes_ if hasattr(x_, 'mro')]
+                        if not classes_:
+                            continue
+                        n6 += 1
+                        offenders = []
+                        for k_ in classes_:
+                            for sub in [k_] + k_.subclasses(model):
+                                r2 = sub.find_method(mn)
+                                if r2 is not None and not is_identity(r2[1]):
+                                    offenders.append((sub, r2[1]))
+                        ctx.instance('C02.R6', '%s.%s passes elements of %s through unconverted' % (c.qname, mn, sorted(k_.name for k_ in classes_)),
+                                     'all identities' if not offenders else 'VIOLATION', node=f_, file=rel)
+                        if offenders:
+                            sub, g_ = offenders[0]
+                            ctx.violation('C02.R6', rel, f_, '%s::%s.%s' % (rel, c.name, mn),
+                                          '%s.%s skips the element conversion whenever the element type is an instance of %s, but %s (a subclass accepted by that test) defines a %s that '
+                                          'is not the identity (%s): its values are handed over / returned unconverted, so they no longer round-trip (%d such classes)'
+                                          % (c.name, mn, sorted(k_.name for k_ in classes_), sub.name, mn, Model.qual(g_), len({o_[0].name for o_ in offenders})),
+                                          stmt='pass-through shortcut')
+    if n6 == 0:
+        ctx.instance('C02.R6', 'no container of jer/xer skips the per-element conversion on a type test', 'ok', nontrivial=False)
+
     # ---- R5
     for f in siblings.members_encoders(model, ('jer', 'xer')):
         bad = siblings.presence_violations(f)
@@ -432,3 +514,24 @@ REFACTORS = [
             return '-INF'
         else:"""),
 ]
+
+MUTANTS.append(dict(name='jer.SequenceOf passes string-typed elements through (time types are strings too)', file=JER,
+                    old="""class SequenceOf(Type):
+
+    def __init__(self, name, element_type):
+        super(SequenceOf, self).__init__(name, 'SEQUENCE OF')
+        self.element_type = element_type
+
+    def encode(self, data):
+""", new="""class SequenceOf(Type):
+
+    def __init__(self, name, element_type):
+        super(SequenceOf, self).__init__(name, 'SEQUENCE OF')
+        self.element_type = element_type
+        self.plain = isinstance(element_type, (Boolean, StringType))
+
+    def encode(self, data):
+        if self.plain:
+            return list(data)
+
+""", expect='C02.R6'))
